@@ -70,6 +70,7 @@ fn c02_effective_name_with_non_ascii_version() {
 //   P4 two neighbouring lines share a derived mapping only if contiguous and (same name, or one of them is
 //      the linker's inaccessible reserved gap after / between parts of an executable file mapping)
 //   P5 the non-path line that starts at the vDSO address is named linux-gate.so
+//   P6 a derived mapping carries the mapped path of its first line without the " (deleted)" marker
 // ---------------------------------------------------------------------------
 #[derive(Clone, Copy, PartialEq, Debug)]
 struct Line { start: usize, end: usize, perms: usize, offset: usize, name: usize }
@@ -145,6 +146,16 @@ fn check_map(lines: &[Line], gate: Option<usize>, n_eval: &mut usize) -> std::re
             && k + 1 < lines.len() && owner[k + 1] == owner[k] && name_of(&lines[k + 1]) == group_name;
         if !(same_name || gap_after_exec || gap_between) {
             return Err(format!("P4 line {k} joined the mapping that starts at line {first} without a rule: {l:?}"));
+        }
+    }
+    // P6 (C08 "whose name is the mapped path", C13): a derived mapping is named after its first line — the mapped path
+    // WITHOUT the kernel's " (deleted)" marker, nothing for an anonymous line (the vDSO line is P5's business)
+    for (i, m) in out.iter().enumerate() {
+        let first = lines.iter().zip(&owner).find(|(_, o)| **o == i).map(|(l, _)| l).unwrap();
+        if gate == Some(first.start) && !NAMES[first.name].contains('/') { continue; }
+        let want = sanitized(first.name).map(OsStr::new);
+        if m.name.as_deref() != want {
+            return Err(format!("P6 the mapping at {:x} (first line named {:?}) is named {:?}, expected {:?}", m.start_address, NAMES[first.name], m.name, want));
         }
     }
     // P5
